@@ -976,6 +976,11 @@ func (eval Evaluator) MulThenAdd(op0 *rlwe.Ciphertext, op1 rlwe.Operand, opOut *
 					scaleRLWE = scaleRLWE.Mul(rlwe.NewScale(ringQ.SubRings[level-i].Modulus))
 				}
 
+				// opOut is scaled before op0 is read
+				if op0 == opOut {
+					return fmt.Errorf("cannot MulThenAdd: opOut must be different from op0 when the constant is not a Gaussian integer")
+				}
+
 				scaleInt := new(big.Int)
 				scaleRLWE.Value.Int(scaleInt)
 				if err = eval.Mul(opOut, scaleInt, opOut); err != nil {
@@ -1006,6 +1011,11 @@ func (eval Evaluator) MulThenAdd(op0 *rlwe.Ciphertext, op1 rlwe.Operand, opOut *
 
 		// Gets the ring at the target level
 		ringQ := eval.GetParameters().RingQ().AtLevel(level)
+
+		// opOut is scaled before op0 is read (and the recursion below refuses opOut == op0)
+		if op0 == opOut {
+			return fmt.Errorf("cannot MulThenAdd: opOut must be different from op0")
+		}
 
 		var scaleRLWE rlwe.Scale
 		if cmp := op0.Scale.Cmp(opOut.Scale); cmp == 0 { // If op0 and opOut scales are identical then multiplies opOut by scaleRLWE.
